@@ -48,6 +48,8 @@ uint64_t* TUP_END(void* v) { return (uint64_t*)0; }
 uint64_t* NIT_DEREF(void* it_) { NIT* it = (NIT*)it_; __CPROVER_assert(it->f0 != 0, "no dereference of an end iterator"); cell_child = __CPROVER_uninterpreted_CHILD(g_cur_tid, g_pos); return &cell_child; }
 void* NIT_INC(void* it_) { NIT* it = (NIT*)it_; g_pos++; it->f0 = (uint64_t*)(g_pos < g_len ? TOK : (void*)0); return it; }
 void VEC_PUSH_RV(void* v, uint64_t* x) { if (nt_len == wk) nt_w = *x; nt_len++; }
+void VEC_PUSH(void* v, uint64_t* x) { if (nt_len == wk) nt_w = *x; nt_len++; }           /* the const& overload, should the code use it */
+uint64_t VEC_SIZE(void* v) { return v == TOK ? g_len : nt_len; }
 /* ---- look-up of the image tuple and its insertion ---- */
 void TLOOKUP(void* ret, void* a, void* vec) { __CPROVER_assert(a == (void*)g_dst, "the image tuple is looked up in the destination's tuple cache"); g_tl_len = nt_len; g_tl_w = nt_w; g_tl_valid = 1; SP_PTR((SPV*)ret) = TOKT; }
 void SPT_DTOR(void* s) { }
